@@ -416,6 +416,8 @@ Inductive sop :=
 | SReg (name uritext : text) (tagged validate : bool)
      (* register(name, uri, safe=False, metadata={"m"} if tagged); validate = given as a string, which register checks with
         URI(); a URI object is stored as its text form without a check *)
+| SRefused (name uritext : text)                (* a register call the implementation refused with PyroError: nothing stored
+                                                  (whether it had to refuse is not the model's business, see Harness/H19.v) *)
 | SDel (name : text)                           (* remove(name) *)
 | SLookup (name : text)                        (* lookup(name) *)
 | SList                                        (* list() *)
@@ -434,6 +436,7 @@ Definition ns_step (T : tables) (ns_port : Z) (s : store) (op : sop) : store * s
   | SReg name t tagged validate =>
     if validate && negb (match parse T ns_port t with Some _ => true | None => false end) then (s, ORegRejected)
     else (st_set s name (t, tagged), ORegOk)
+  | SRefused _ _ => (s, ORegRejected)
   | SDel name => match st_get s name with Some _ => (st_del s name, ODel 1) | None => (s, ODel 0) end
   | SLookup name => (s, match st_get s name with
                         | Some (t, _) => match parse T ns_port t with Some u => OLookup (Some u) | None => OLookupBad end
